@@ -150,7 +150,12 @@ func prepare(s *session, op Op, base int, walked bool) (string, wirecodec.Values
 	case "mknod":
 		return "Tmknod", wirecodec.Values{"dfid": fid, "name": "fnod", "mode": 0o644, "major": 1, "minor": 2, "gid": 0}, nil
 	case "link":
-		return "Tlink", wirecodec.Values{"dfid": fid, "fid": fid, "name": "hl"}, nil
+		// the link's target is a fid of its own on a file outside the cell's nodes: Tlink is a write-class
+		// call on the DIRECTORY (with directory and target the same fid, locking either looks alike)
+		if _, err := s.call("Twalk", wirecodec.Values{"fid": 1, "newfid": base + 6, "names": []string{"flinktarget"}}); err != nil {
+			return "", nil, err
+		}
+		return "Tlink", wirecodec.Values{"dfid": fid, "fid": base + 6, "name": "hl"}, nil
 	case "unlinkat":
 		return "Tunlinkat", wirecodec.Values{"dirfd": fid, "name": nodeName[op.E], "flags": 0}, nil
 	case "walk":
